@@ -45,7 +45,8 @@ func kindSchnorr(f *failer) {
 	if !pOK {
 		return
 	}
-	want := refec.SchnorrVerify(pkB, msg, sigB)
+	// btcd documents BIP340 for 32-byte messages only ("Fail if m is not 32 bytes")
+	want := len(msg) == 32 && refec.SchnorrVerify(pkB, msg, sigB)
 	if want {
 		R.Add("schnorr_equation_holds", 1)
 	} else {
@@ -128,6 +129,9 @@ func genSchnorrCases(bounds map[string]interface{}) []Case {
 			for _, x := range []named{{"offcurve", offCurveNear(P.X)}, {"p-1", pM1}, {"p", refec.P}, {"p+1", pP1}, {"0", big.NewInt(0)}, {"2^256-1", max256}} {
 				add(msg, refec.Bytes32(x.v), valid, fmt.Sprintf("m=%s/d=%s/pk=%s/sig=valid", m.name, d.name, x.name))
 			}
+			add(msg[:31], pk, valid, fmt.Sprintf("m=%s/d=%s/msglen=31/sig=valid", m.name, d.name))
+			add(append(append([]byte{}, msg...), 0), pk, valid, fmt.Sprintf("m=%s/d=%s/msglen=33/sig=valid", m.name, d.name))
+			add(nil, pk, valid, fmt.Sprintf("m=%s/d=%s/msglen=0/sig=valid", m.name, d.name))
 			add(msg, pk[:31], valid, fmt.Sprintf("m=%s/d=%s/pklen=31/sig=valid", m.name, d.name))
 			add(msg, append(append([]byte{}, pk...), 0), valid, fmt.Sprintf("m=%s/d=%s/pklen=33/sig=valid", m.name, d.name))
 			add(msg, refec.Compressed(P), valid, fmt.Sprintf("m=%s/d=%s/pk=compressed33/sig=valid", m.name, d.name))
@@ -139,6 +143,7 @@ func genSchnorrCases(bounds map[string]interface{}) []Case {
 		"r":            "valid (nonce with even R.y), valid (nonce with odd R.y), 0, 1, n-1, n, n+1, p-1, p, p+1, 2^256-1",
 		"s":            "per nonce: valid, wrong-sign nonce (odd R.y), n-valid; 0, 1, n-1, n, n+1, p-1, p, p+1, 2^256-1",
 		"sig_lengths":  "0, 63, 64, 65",
+		"msg_lengths":  "32 (grid); 0, 31, 33 with the valid signature (must be rejected: btcd documents 32-byte messages)",
 		"pk_shapes":    "key x, first off-curve x, p-1, p, p+1, 0, 2^256-1; lengths 31, 32, 33",
 		"cases":        len(cases),
 	}
